@@ -79,6 +79,8 @@ class Sandbox:
         # Patching
         self._current_patches = []
         self._current_stdout = []
+        # The builtin replacements that were placed in the student namespace
+        self._injected_builtins = {}
         # Temporary Variables
         self._temporary_variables = set()
         self._backup_variables = {}
@@ -537,14 +539,18 @@ class Sandbox:
         builtins = builtins
         for name, value in builtins.items():
             if value is True:
-                data['__builtins__'][name] = mocked.ORIGINAL_BUILTINS[name]
-                data[name] = mocked.ORIGINAL_BUILTINS[name]
+                value = mocked.ORIGINAL_BUILTINS[name]
             elif value is False:
-                data['__builtins__'][name] = mocked.disabled_builtin(name)
-                data[name] = mocked.disabled_builtin(name)
-            else:
-                data['__builtins__'][name] = value
+                value = mocked.disabled_builtin(name)
+            data['__builtins__'][name] = value
+            # The replacement is also placed in the namespace itself, so that it
+            # reaches functions that were defined by an earlier execution - but
+            # never over a global that the student defined under that name.
+            if data is not self.data:
                 data[name] = value
+            elif name not in data or data[name] is self._injected_builtins.get(name):
+                data[name] = value
+                self._injected_builtins[name] = value
 
     def _start_mocking(self, context: SandboxContext):
         """ Mock input, output, builtins, and modules """
